@@ -86,6 +86,23 @@ def make_call_handler(lib, priv, arity, reports_for):
                 kreg.update(ex[2])
                 flags.update(ex[3])
             return
+        # library callee with a computed register summary (gcc's -fipa-ra relies on it for static functions)
+        if tgt and tgt[0] == "func" and not c19.is_stub(lib, tgt[1]):
+            sm = c19.summary_of(lib, tgt)
+            cname = lib.entries_by_key.get(tgt[1])
+            n = arity.get(cname)
+            if n is not None:
+                if final:
+                    di.res.sinks_checked += 1
+                for r_ in x86.ARG_REGS[:min(n, 6)]:
+                    if (gpr[r_] & 0x0F) != 0x0F:
+                        di.report(i, "call-argument", "%s passed to %s" % (r_.lower(), cname), final)
+            for r_ in sm.clobbers:
+                if r_ != "RSP":
+                    gpr[r_] = defined.FULL8        # written by the callee: a function of the callee's inputs
+            flags["CF"] = False
+            flags["AR"] = False
+            return
         # SysV callee
         name = None
         if tgt and tgt[0] == "func":
@@ -271,15 +288,15 @@ def ir_rules(chk, mods):
             for P in ir.paths_with_facts(F, max_paths=50000):
                 if P.contradictory(F):
                     continue
-                first = None
+                outcomes = set()
                 for (val, pred, c, t, br, pos) in P.facts:
                     e = ir.expr_str(F, val)
-                    if e == "and(arg:flags,%d)" % FIRST and c == 0:
-                        first = (pred == "ne") if first is None else first
+                    if e == "and(arg:flags,%d)" % FIRST and c == 0 and pred in ("eq", "ne"):
+                        outcomes.add(pred == "ne")
                     if e == "arg:flags" and pred == "eq" and isinstance(c, int):
-                        first = bool(c & FIRST)
-                if not first:
-                    continue
+                        outcomes.add(bool(c & FIRST))
+                if outcomes != {True}:
+                    continue        # not a FIRST path, or an infeasible one (the same expression decided both ways)
                 # on a FIRST/ENTIRE path: reads of the restart fields must follow this call's resetting stores
                 written = set()
                 for I in P.insts:
